@@ -93,7 +93,7 @@ Section Fed.
                        unlock actor ;;;
                        lift u
                    | Err e => unlock actor ;;; fail e
-                   | Panic s => Ret (Panic s)
+                   | Panic s => unlock actor ;;; Ret (Panic s)
                    end
                  else ok tt) ;;
           _ <-? lock inbox ;;                                   (* fix F3: the error is returned *)
@@ -164,10 +164,10 @@ Section Fed.
                       unlock actor ;;;
                       lift u
                   | Err e => unlock actor ;;; fail e
-                  | Panic s => Ret (Panic s)
+                  | Panic s => unlock actor ;;; Ret (Panic s)
                   end
               | Err e => unlock actor ;;; fail e
-              | Panic s => Ret (Panic s)
+              | Panic s => unlock actor ;;; Ret (Panic s)
               end
           end
       end) ;;
